@@ -58,7 +58,7 @@ def legal_action_from_obs(adapter: Any, env: Any, obs: Any, rng: np.random.Gener
 
 
 class AdaptSys:
-    def __init__(self, adapter: Any, cfg: Dict[str, Any], kind: str, aggregators: str):
+    def __init__(self, adapter: Any, cfg: Dict[str, Any], kind: str, aggregators: str, seed0: int = 0):
         import jax
         import jax.numpy as jnp
         from jumanji import wrappers
@@ -81,15 +81,19 @@ class AdaptSys:
         self.native_reset = jax.jit(base.reset)
         self.native_step = jax.jit(base.step)
         self.dtype = base.action_spec.dtype
+        # the seed / key handed to the constructor is part of the documented key schedule: it varies per task and
+        # the first run of a task uses the freshly constructed adapter without any re-seeding
+        self.seed0 = int(seed0)
         if kind == "gym":
-            self.sut = wrappers.JumanjiToGymWrapper(env, seed=0)
+            self.sut = wrappers.JumanjiToGymWrapper(env, seed=self.seed0)
         elif kind == "dm":
-            self.sut = wrappers.JumanjiToDMEnvWrapper(env, key=jax.random.PRNGKey(0))
+            self.sut = wrappers.JumanjiToDMEnvWrapper(env, key=jax.random.PRNGKey(self.seed0))
             self.dm_obs_spec = self.sut.observation_spec()
         else:
             self.m2s_reset = jax.jit(env.reset)
             self.m2s_step = jax.jit(env.step)
-        self.shadow_key = jax.random.PRNGKey(0)
+        self.shadow_key = jax.random.PRNGKey(self.seed0)
+        self.fresh = True
 
 
 class AdaptRun:
@@ -150,6 +154,7 @@ class AdaptRun:
             self.stats.inc(self.stats.faults, "MID_RESET" if seed is None else "RESEED")
         out: Any
         if a.kind == "gym":
+            self.stats.probe("gym_reset_plain" if seed is None else ("gym_reset_seed_zero" if int(seed) == 0 else "gym_reset_seed_nonzero"))
             if seed is not None:
                 a.shadow_key = a.jax.random.PRNGKey(int(seed))
                 if record:
@@ -221,6 +226,7 @@ class AdaptRun:
             dd = dict_diff(info if info else {}, {k: obs_to_dict(v) for k, v in (ts.extras or {}).items()}, "info")
             if dd:
                 self.fail("gym_vs_native", "info_differs", f"step: {dd[:2]}")
+            self.stats.probe(f"gym_terminated{int(bool(term))}_truncated{int(bool(trunc))}")
             out = (util.tree_digest(obs), float(reward), bool(term), bool(trunc))
         elif a.kind == "dm":
             dts = a.sut.step(np.asarray(action))
@@ -233,11 +239,16 @@ class AdaptRun:
             if dts.discount is None or not util.close(dts.discount, d):
                 self.fail("dm_env_vs_native", "discount_differs", f"step: {dts.discount} vs native {d}")
             self.check_dm_obs("step", dts.observation, ts)
+            if int(ts.step_type) == 2:
+                self.stats.probe("dm_last_discount_zero" if float(np.max(d)) == 0.0 else "dm_last_discount_nonzero")
             out = (util.tree_digest(util.to_np(dts.observation)), float(np.sum(r)))
         else:
             self.m2s_state, mts = a.m2s_step(self.m2s_state, a.jnp.asarray(action, dtype=a.dtype))
             ts = self.shadow_step(action)
             self.check_m2s("step", util.to_np(self.m2s_state), util.to_np(mts), util.to_np(self.state), ts)
+            dv = np.asarray(ts.discount)
+            if int(ts.step_type) == 1 and dv.size > 1 and dv.min() == 0.0:
+                self.stats.probe("m2s_mid_step_with_some_agent_discount_zero")
             out = ()
         self.stats.steps += 1
         self.stats.check("steps_compared")
@@ -357,11 +368,14 @@ def generate_and_run(a: AdaptSys, rng: np.random.Generator, stats: Stats) -> Tup
 
     try:
         if a.kind == "gym":
-            if rng.random() < 0.5:
+            r0 = rng.random()
+            if r0 < 0.34:
                 emit(["seed", draw_seed(rng)])
                 emit(["reset", None])
-            else:
+            elif r0 < 0.67:
                 emit(["reset", draw_seed(rng)])
+            else:
+                emit(["reset", None])  # the key stream the constructor's seed started (or the last rewind re-seeded)
         elif a.kind == "dm":
             emit(["reset", None])
         else:
@@ -395,13 +409,21 @@ def generate_and_run(a: AdaptSys, rng: np.random.Generator, stats: Stats) -> Tup
     return ops, run
 
 
-def execute(a: AdaptSys, ops: List[List[Any]], stats: Stats) -> None:
-    # a replay starts from the adapter's initial key, like the first run of a task
-    a.shadow_key = a.jax.random.PRNGKey(0)
+def rewind(a: AdaptSys) -> None:
+    """Every run starts from the adapter's constructor key so that it can be replayed alone. A freshly constructed
+    adapter is left untouched (the constructor's own handling of seed / key is then part of what is compared)."""
+    a.shadow_key = a.jax.random.PRNGKey(a.seed0)
+    if a.fresh:
+        a.fresh = False
+        return
     if a.kind == "gym":
-        a.sut.seed(0)
+        a.sut.seed(a.seed0)
     elif a.kind == "dm":
-        a.sut._key = a.jax.random.PRNGKey(0)  # the dm_env adapter has no seed(); its key is its only hidden state
+        a.sut._key = a.jax.random.PRNGKey(a.seed0)  # the dm_env adapter has no seed(); its key is its only hidden state
+
+
+def execute(a: AdaptSys, ops: List[List[Any]], stats: Stats) -> None:
+    rewind(a)
     run = AdaptRun(a, stats)
     for op in ops:
         apply_op(run, op)
@@ -414,7 +436,14 @@ def run_task(prop: Any, task: Dict[str, Any]) -> Dict[str, Any]:
     cfg = task["cfg"]
     t0 = time.time()
     kind = task["kind"]
-    a = AdaptSys(adapter, cfg, kind, task.get("aggregators", "default"))
+    seed0 = [0, 1, 20231, 2**31 - 1][util.crc(f"{cfg['id']}:{kind}:{task.get('aggregators', 'default')}:{task['shard']}") % 4]
+
+    def build(fresh: bool = True) -> AdaptSys:
+        b = AdaptSys(adapter, cfg, kind, task.get("aggregators", "default"), seed0)
+        b.fresh = fresh  # not fresh: the run starts by re-seeding the adapter, as every run but the first of a task does
+        return b
+
+    a = build()
     stats = Stats()
     digests: List[int] = []
     nontrivial: List[bool] = []
@@ -432,8 +461,8 @@ def run_task(prop: Any, task: Dict[str, Any]) -> Dict[str, Any]:
         rng = util.sub_rng(task["seed"], "C15", task["env"], cfg["id"], kind, task.get("aggregators", "default"), task["shard"], i)
         s0 = stats.steps
         r0 = stats.checks.get("resets_compared", 0)
-        # every run starts from the adapter's initial key so that it can be replayed alone
-        execute(a, [], Stats())
+        was_fresh = a.fresh
+        rewind(a)
         try:
             ops, run = generate_and_run(a, rng, stats)
         except Violation as v:
@@ -444,20 +473,21 @@ def run_task(prop: Any, task: Dict[str, Any]) -> Dict[str, Any]:
 
                 def still(cand: List[Any]) -> bool:
                     try:
-                        execute(a, cand[1:], Stats())
+                        # a replay runs on a freshly constructed adapter: so does every shrink candidate
+                        execute(build(was_fresh), cand[1:], Stats())
                     except Violation as v2:
                         return (v2.monitor, v2.cls) == key
                     return False
 
-                small = shrink([["start"]] + ops, still, budget=40)[1:]
+                small = shrink([["start"]] + ops, still, budget=12)[1:]
                 detail = v.detail
                 try:
-                    execute(a, small, Stats())
+                    execute(build(was_fresh), small, Stats())
                     small = ops
                 except Violation as v3:
                     detail = v3.detail
                 violations.append({"property": "C15", "env": task["env"], "config": cfg, "seed": task["seed"], "shard": task["shard"], "run": i,
-                                   "monitor": v.monitor, "class": v.cls, "detail": detail, "kind": kind,
+                                   "monitor": v.monitor, "class": v.cls, "detail": detail, "kind": kind, "seed0": seed0, "fresh": was_fresh,
                                    "aggregators": task.get("aggregators", "default"), "ops": small, "ops_unminimised": ops})
             stats.probe("runs_ending_in_violation")
             i += 1
@@ -481,7 +511,8 @@ def run_task(prop: Any, task: Dict[str, Any]) -> Dict[str, Any]:
 def replay(v: Dict[str, Any], path: str) -> int:
     from jsim import envs
 
-    a = AdaptSys(envs.get(v["env"]), v["config"], v["kind"], v.get("aggregators", "default"))
+    a = AdaptSys(envs.get(v["env"]), v["config"], v["kind"], v.get("aggregators", "default"), int(v.get("seed0", 0)))
+    a.fresh = bool(v.get("fresh", True))
     try:
         execute(a, v["ops"], Stats())
     except Violation as got:
